@@ -5,3 +5,6 @@ package pubsub
 
 // vt is a verification trace point; it does nothing unless built with -tags verif.
 func (b *bus) vt(event string, kv ...interface{}) {}
+
+// vgate is a verification scheduling point; it does nothing unless built with -tags verif.
+func (b *bus) vgate(name string) {}
